@@ -138,6 +138,13 @@ ContinuousAtCorners(s) ==
       /\ \A n \in 0..(3 - m) : PieceCubicDer(LeftPiece(s, v), s, n, v) = PieceCubicDer(RightPiece(s, v), s, n, v)
       /\ PieceCubicDer(LeftPiece(s, v), s, 4 - m, v) # PieceCubicDer(RightPiece(s, v), s, 4 - m, v)
 
+(* At a simple corner (multiplicity 1) the third derivative jumps: the code evaluates the piece to the right of the corner
+   (ef >= e_i); the piece to the left is the other admissible one-sided convention.  Everywhere else: the code's value. *)
+OneSided(ef, e, der) == LET s == Sort4(e) IN der = 3 /\ Mult(s, ef) = 1
+LeftConvention(ef, e, der) ==
+   LET s == Sort4(e) IN
+   IF OneSided(ef, e, der) THEN PieceCubicDer(LeftPiece(s, ef), s, der, ef) ELSE WeightsTetra(ef, e, der, TRUE)
+
 -----------------------------------------------------------------------------
 (* TetraWeightsParal.weight_1k1b_priv: corners c[x][y][z] (x, y, z in 1..2 here, 0..1 in the code), centre ec;
    six faces, two tetrahedra (centre, Eface[0,0], Eface[0,1] | Eface[1,0], Eface[1,1]) per face, mean of the twelve *)
@@ -154,6 +161,24 @@ RECURSIVE RSumInt(_)
 RSumInt(q) == IF Len(q) = 0 THEN 0 ELSE q[1] + RSumInt(Tail(q))
 (* Occ(e, ef) : the weight of one tetrahedron, either the transcription or the closed form *)
 ParalWeight(Occ(_, _), ec, c, ef) == RDivI(RSumSeq([t \in 1..12 |-> Occ(ParalTetrahedra(ec, c)[t], ef)]), 12)
+(* Which diagonal splits a face into two triangles is a free choice of the implementation (the code: [0,0]-[1,1]); the
+   property fixes the weight of one tetrahedron only.  The other choice, face by face: *)
+ParalTetrahedraOther(ec, c) ==
+   LET F == Faces(c) IN
+   [t \in 1..12 |-> LET f == F[(t + 1) \div 2] IN
+                    IF t % 2 = 1 THEN <<ec, f[1][2], f[1][1], f[2][1]>> ELSE <<ec, f[1][2], f[2][2], f[2][1]>>]
+(* on a planar face (f00 + f11 = f01 + f10: the linear interpolations of the two triangles agree) both splits of the face
+   give the same weight; FacesPlanar: all six faces *)
+FacesPlanar(c) == \A f \in 1..6 : LET F == Faces(c)[f] IN F[1][1] + F[2][2] = F[1][2] + F[2][1]
+(* contribution of face f (two tetrahedra) to 12 * weight for either split; the weight of any implementation lies between
+   the sums over the faces of the smaller and of the larger one *)
+FacePair(Occ(_, _), T, f, ef) == RAdd(Occ(T[2 * f - 1], ef), Occ(T[2 * f], ef))
+RMin(x, y) == IF RLe(x, y) THEN x ELSE y
+RMax(x, y) == IF RLe(x, y) THEN y ELSE x
+ParalLower(Occ(_, _), ec, c, ef) ==
+   RDivI(RSumSeq([f \in 1..6 |-> RMin(FacePair(Occ, ParalTetrahedra(ec, c), f, ef), FacePair(Occ, ParalTetrahedraOther(ec, c), f, ef))]), 12)
+ParalUpper(Occ(_, _), ec, c, ef) ==
+   RDivI(RSumSeq([f \in 1..6 |-> RMax(FacePair(Occ, ParalTetrahedra(ec, c), f, ef), FacePair(Occ, ParalTetrahedraOther(ec, c), f, ef))]), 12)
 
 -----------------------------------------------------------------------------
 (* TetraWeights.weights_all_band_groups for one k-point.
@@ -189,6 +214,18 @@ AllBandGroups(W(_, _), ec, cor, efs, der, th, kr) ==
       ELSE main
 (* what the static calculator makes of it for the identity formula: sum over groups of (number of bands) * weight *)
 GroupsTotal(G, i) == RSumSeq([j \in 1..Len(G) |-> RScale(G[j][2] - G[j][1], G[j][3][i])])
+(* what a calculator makes of a list of groups for band b (1-based) at Fermi level index i: the weight of the group that
+   contains the band, nothing for a band in no group.  The binding compares these per-band weights, not the way the list is
+   cut into groups (one completion group or several, a fully occupied group listed with weight 1 or merged into the
+   completion, ...) *)
+PerBandWeight(G, b, i) ==
+   LET J == {j \in 1..Len(G) : G[j][1] < b /\ b <= G[j][2]} IN
+   IF J = {} THEN RZero ELSE G[CHOOSE j \in J : TRUE][3][i]
+(* every listed group is a union of whole degenerate groups of the partition Borders(ec, th, kr) *)
+UnionsOfDegenerateGroups(G, ec, th, kr) ==
+   LET B == Borders(ec, th, kr) IN
+   \A j \in 1..Len(G) : \A k \in 1..Len(B) :
+      (B[k][1] < G[j][2] /\ G[j][1] < B[k][2]) => (G[j][1] <= B[k][1] /\ B[k][2] <= G[j][2])
 (* groups never overlap *)
 GroupsDisjoint(G) == \A j, k \in 1..Len(G) : j # k => (G[j][2] <= G[k][1] \/ G[k][2] <= G[j][1])
 (* eigenvalues are sorted at every k-point: band b lies below band b+1 at the centre and at every corner *)
